@@ -94,8 +94,8 @@ func svdFamily(c *inst, raw json.RawMessage, full bool, sum *core.Summary) {
 		minw = maxi(3*mn+maxi(m, n), 5*mn)
 	}
 	if want("Dgesvd") {
-		for _, jobU := range jobs {
-			for _, jobVT := range jobs {
+		for ju, jobU := range jobs {
+			for jv, jobVT := range jobs {
 				for _, pad := range pads {
 					lda := maxi(1, n) + pad
 					// u: m x ucols, vt: vrows x n
@@ -133,17 +133,41 @@ func svdFamily(c *inst, raw json.RawMessage, full bool, sum *core.Summary) {
 					opt, ok := k.query("Dgesvd", minw, func(work []float64) {
 						impl.Dgesvd(jobU, jobVT, m, n, a0, lda, s0, u0, ldu, vt0, ldvt, work, -1)
 					}, a0, s0, u0, vt0)
-					lworks := []int{minw}
-					if ok && opt != minw {
-						lworks = append(lworks, opt)
+					// the workspace grid; ld*n uses the stride of A and min(m, n): from lwork >= wrkbl + lda*min(m,n)
+					// on, the QR-first / LQ-first paths keep the triangular factor with the stride of A
+					grid := lworkGrid(minw, opt, ok, lda, mn)
+					path, fast := 0, 0
+					if pi := 3*ju + jv; pi < len(c.Paths) && len(c.Paths[pi]) == 2 {
+						path, fast = c.Paths[pi][0], c.Paths[pi][1]
 					}
 					for _, routine := range []string{"Dgesvd", "lapack64.Gesvd"} {
 						if routine == "lapack64.Gesvd" && (pad != 0 || m == 0 || n == 0) {
 							continue // blas64.General needs a positive stride and is exercised at minimal ld only
 						}
-						for _, lwork := range lworks {
+						for _, lw := range grid {
+							lwork := lw.lwork
+							if routine == "lapack64.Gesvd" && lw.name != "min" && lw.name != "opt" {
+								continue // the wrapper only forwards lwork
+							}
 							k.where = desc(routine, "jobU", svdJobName[jobU], "jobVT", svdJobName[jobVT], "m", m, "n", n,
-								"lda", lda, "ldu", ldu, "ldvt", ldvt, "lwork", lwork, "sce", c.Sce)
+								"lda", lda, "ldu", ldu, "ldvt", ldvt, "lwork", lwork, "("+lw.name+")", "path", path, "sce", c.Sce)
+							if routine == "Dgesvd" {
+								// which (path, workspace class, branch) ran: the path and the length `fast` from which a
+								// QR-first path uses its fast variant are the specification's (GesvdPath, GesvdFast);
+								// "fast-wide" = lwork >= optimum + lda*min(m,n) >= wrkbl + lda*min(m,n), where the copy of
+								// the triangular factor is kept with the stride of A
+								br := "-"
+								if fast > 0 {
+									br = "slow"
+									if lwork >= fast {
+										br = "fast"
+									}
+									if ok && lwork >= opt+lda*mn {
+										br = "fast-wide"
+									}
+								}
+								gridNote("gesvd_grid", desc("path", path, lw.name, br, "lda+"+desc(pad)))
+							}
 							a, s, u, vt := mk()
 							work := newWork(lwork)
 							var res bool
@@ -181,6 +205,8 @@ func svdFamily(c *inst, raw json.RawMessage, full bool, sum *core.Summary) {
 							}
 							k.svdValues(routine, c, s)
 							k.svdVectors(routine, c, getU, getV)
+							// every column of U and row of V^T (repeated values, SVDAll extras): GenPred!SvdAccept
+							k.svdIdentity(routine, c, u, ldu, ucols, vt, ldvt, vrows, s)
 						}
 					}
 				}
